@@ -1,6 +1,6 @@
 #!/bin/bash
 # run every claimed check once on the unchanged tree (refreshes evidence); usage: run_all.sh [quick|thorough]
-cd /verif
+cd "$(dirname "$0")/../.."
 tier=${1:-quick}
 for p in $(/venv/bin/python -c "import json; print(' '.join(json.load(open('harness/claimed.json'))))" 2>/dev/null); do
   ./check $p --tier $tier 2>&1 | grep -v "^WARNING conda" | grep -E "VIOLATION|KNOWN-FINDING|^\[C" | cut -c1-200
